@@ -31,6 +31,25 @@ def first_error_line(stderr: str) -> str:
     return stderr.strip().split("\n")[0][:300] if stderr.strip() else "?"
 
 
+def job_event_limit(files: dict) -> Optional[int]:
+    """How many input events the rendered job configuration lets the framework process (None = all).  The stand-in driver has no
+    configuration layer of its own, so the limit the package asks the real framework for (cmsRun: process.maxEvents; EventLoop:
+    optMaxEvents) is honoured here."""
+    import re as _re
+
+    cfg = files.get("analyzer_cfg.py")
+    if cfg is not None:
+        m = _re.search(r"process\.maxEvents\s*=\s*cms\.untracked\.PSet\(\s*input\s*=\s*cms\.untracked\.int32\(\s*(-?\d+)\s*\)\s*\)", cfg)
+        if m and int(m.group(1)) >= 0:
+            return int(m.group(1))
+    job = files.get("ATestRun_eljob.py")
+    if job is not None:
+        m = _re.search(r"optMaxEvents\s*,\s*(-?\d+)", job)
+        if m and int(m.group(1)) >= 0:
+            return int(m.group(1))
+    return None
+
+
 def execute(text: str, backend: str, events: List[Event], model_dir: str, schedule=None, keep=False):
     """Returns (pkg, compiled, out).  Raises nothing for translation/compile failures: encoded in result."""
     res = CaseResult()
@@ -49,7 +68,11 @@ def execute(text: str, backend: str, events: List[Event], model_dir: str, schedu
             return res
         evf = os.path.join(comp.workdir, "events.txt")
         write_events(events, evf)
-        out = cxx.run_job_resume(comp.exe, evf, len(events), schedule)
+        sched = list(schedule) if schedule is not None else list(range(len(events)))
+        limit = job_event_limit(pkg.files)
+        if limit is not None:
+            sched = sched[:limit]  # the framework stops reading input there
+        out = cxx.run_job_resume(comp.exe, evf, len(events), sched) if sched else cxx.run_job_resume(comp.exe, evf, 0, [])
         res.out = out
         if out.get("crashed"):
             res.stage = "crash"
